@@ -180,6 +180,17 @@ def infeasible_items(tier):
         for gap in ("0min", "100d", "3w", "1y"):
             add(f"gap {gap} alap={alap}", {"alap": alap, "resources": R, "tasks": [T("a"), T("b", deps=[{"ref": "a", "gap": gap}])]})
         add(f"onstart-cycle alap={alap}", {"alap": alap, "resources": R, "tasks": [T("a", deps=[{"ref": "b", "onstart": True}]), T("b", deps=[{"ref": "a", "onstart": True}])]})
+    never = {"id": "rp", "leaves": [{"k": "leaves", "type": "annual", "a": "2025-01-01", "b": "2026-01-01"}]}
+    for alap in (False, True):
+        for scen in (None, [("plan", [("s2", [])])]):
+            base = {"alap": alap, "scenarios": scen} if scen else {"alap": alap}
+            add(f"alt primary-never-works alap={alap} scen={bool(scen)}", {**base, "resources": [never, {"id": "rb"}], "tasks": [{"id": "a", "effort": 90, "alloc": ["rp"], "alt": ["rb"]}, T("b")]})
+            add(f"alt primary-is-group alap={alap} scen={bool(scen)}", {**base, "resources": [{"id": "grp", "children": [{"id": "m1"}]}, {"id": "rb"}, {"id": "r1"}],
+                                                                        "tasks": [{"id": "a", "effort": 90, "alloc": ["grp"], "alt": ["rb"]}, T("b")]})
+            add(f"alt both-never alap={alap} scen={bool(scen)}", {**base, "resources": [never, dict(never, id="rq"), {"id": "r1"}], "tasks": [{"id": "a", "effort": 90, "alloc": ["rp"], "alt": ["rq"]}, T("b")]})
+            add(f"alt two-compete alap={alap} scen={bool(scen)}", {**base, "resources": [{"id": "rp"}, {"id": "rb"}, {"id": "r1"}],
+                                                                   "tasks": [{"id": "a", "effort": 60, "alloc": ["rp"], "alt": ["rb"], "end": "2025-01-10-17:00"} if alap else {"id": "a", "effort": 60, "alloc": ["rp"], "alt": ["rb"]},
+                                                                             {"id": "c", "effort": 60, "alloc": ["rp"], "alt": ["rb"], "end": "2025-01-10-17:00"} if alap else {"id": "c", "effort": 6000, "alloc": ["rp"], "alt": ["rb"]}, T("b")]})
     for lv in (("2024-12-09", "2024-12-11"), ("2024-12-30", "2025-01-08"), ("2025-03-01", "2025-03-05"), ("2025-01-20", "2025-03-01"), ("2020-01-01", "2030-01-01")):
         for kind in ("leaves", "vacation", "booking", "pvac", "gleave"):
             for alap in (False, True):
